@@ -109,6 +109,21 @@ CHECKS["C15"] = dict(
     technique="TLC trace validation of paired executions (relational property) against a TLA+ contract; TLC model checking of the contract",
 )
 
+CHECKS["C02"] = dict(
+    category="model_checking",
+    text="Structured streams whose window statistics have closed forms (ramps i mod M, 0/1 patterns of period P) are written for every summarisable type with "
+         "geometries giving 1..5 summary levels (quick: to 450k samples, thorough: 2.1M), and jls_rd_fsr_statistics is called with (start, increment, count) "
+         "aimed at every level, unaligned to entries/blocks/summary chunks and ending at the last sample. Each returned {mean,std,min,max} is projected "
+         "to integers (min/max, llround(mean*n), llround(std^2*100)) and TLC judges it in exact 32-bit-safe integer arithmetic (StatsContract.tla via "
+         "JlsApi!RdStatsVerdict): single windows - min/max exact, n*mean within the stored precision, (d-1)/d*var <= std^2 <= var; multi-window - every entry "
+         "within the extremes of its window widened by one increment, sum of means = exact range mean. StatsMC.tla model-checks the closed forms "
+         "against their definitions and that exact statistics are accepted while those of a shifted window are rejected.",
+    design_ref="DESIGN.md section 6 C02, section 7, section 12",
+    note="Trusted: as C01. Not decided: floating-point rounding on arbitrary values (no closed form); 64-bit types may refuse requests (level-0 statistics unsupported); "
+         "24-bit types are not summarisable. The std clause is evaluated where n*(M-1) <= 46000.",
+    technique="TLC trace validation against an exact-integer TLA+ contract for closed-form streams; TLC model checking of the oracle",
+)
+
 NOT_YET = {}
 
 
